@@ -17,6 +17,7 @@ class Agent:
         self._job = job
         self._callback = callback
         self._thread = None
+        self._finished = False
         self._name = name or 'job {}'.format(id(self))
 
     @property
@@ -36,12 +37,16 @@ class Agent:
         return self
 
     def request_stop(self):
-        self._job.request_stop()
+        # A request that arrives when this run is already over must not leak
+        # into a later execution of the same job object.
+        if not self._finished:
+            self._job.request_stop()
 
     def _execute_and_call(self):
         try:
             self._job.execute()
         finally:
+            self._finished = True
             self._callback(self)
 
 
